@@ -238,6 +238,32 @@ def compare_feature_forms(ctx: Ctx, f: str, cfg, paths, T: int, H: int, dtype):
         if not bool(((bound.get(i) - full_c[:, [i]]).abs() <= (time_tol(T, dtype) * (4 if f == "module_a" else 1) if f in ("time_to_maturity", "expiry_time", "module_a") else 0.0)).all()):
             return (f"feature:{f}:container-step-vs-all", f"FeatureList([{f}]).get({i}) differs from column {i} of get(None) after the container was used on an earlier simulation of the same size",
                     {"T": T, "step": i})
+    # INTERRUPTED stepping: one bound feature is stepped 0..k on an earlier simulation, then the market is simulated anew
+    # (the underlier's buffers are replaced) - or the feature is bound again - and stepping continues at k+1: every value is the
+    # column of the series that is current when it is read
+    if T >= 2:
+        tol_i = time_tol(T, dtype) * (4 if f == "module_a" else 1) if f in ("time_to_maturity", "expiry_time", "module_a") else 0.0
+        for how in ("resimulated", "rebound"):
+            for k in range(T - 1):
+                d_old, _, _ = build_market(cfg, other, K, DT, dtype)
+                d_new, _, _ = build_market(cfg, paths, K, DT, dtype)
+                fi = get_feature(make_feature(f, H, dtype)).of(d_old)
+                for i in range(k + 1):
+                    fi.get(i)
+                if how == "resimulated":
+                    for name, buf in list(d_new.ul().named_buffers()):
+                        d_old.ul().register_buffer(name, buf.clone())
+                    target = d_old
+                else:
+                    fi = fi.of(d_new)
+                    target = d_new
+                ref_full = get_feature(make_feature(f, H, dtype)).of(target).get(None)
+                for i in range(k + 1, T):
+                    ctx.count(n=1)
+                    one = fi.get(i)
+                    if one.shape != ref_full[:, [i]].shape or not bool(((one - ref_full[:, [i]]).abs() <= tol_i).all()):
+                        return (f"feature:{f}:interrupted-stepping:{how}", f"{f}.get({i}) differs from column {i} of get(None) after the feature was stepped to {k} on an earlier "
+                                f"simulation and the market was then {how}", {"T": T, "step": i, "k": k, "single": one.flatten()[:4].tolist(), "column": ref_full[:, [i]].flatten()[:4].tolist()})
     for i in range(T):
         one = feat2.get(i)
         ctx.count(n=1)
